@@ -1127,3 +1127,41 @@ func guessedPackageNameIsAnIdentifier(r *an.Run, rule string) {
 	r.Count("places where a package name is guessed from an import path", n)
 	r.Min("places where a package name is guessed from an import path", 1)
 }
+
+// snapshotAdvances (C12-R4 / C17): Snapshot.Diff returns the snapshot of the
+// rewritten tree; the next change is compared against THAT. In both pipelines
+// the result of every Diff call is what the snapshot variable holds when Diff
+// is called again (the call's result flows back into its own receiver through
+// the change loop) — a result that is dropped leaves the baseline at the
+// original file, and from the second matching change on the changed regions
+// (comments removed, lines merged) are computed against the wrong tree.
+func snapshotAdvances(r *an.Run, rule string) {
+	r.Rule(rule)
+	n := 0
+	for _, name := range [][2]string{{mainP, "patchRunner.Apply"}, {patchP, "File.Apply"}} {
+		f := fn(r, name[0], name[1])
+		if f == nil {
+			continue
+		}
+		for _, g := range helperGroup(f, 2) {
+			for _, c := range an.Calls(g) {
+				call, ok := c.(*ssa.Call)
+				sc := an.StaticCallee(c)
+				if !ok || sc == nil || !strings.HasSuffix(short(sc), "astdiff.Snapshot).Diff") && !strings.HasSuffix(short(sc), "Snapshot.Diff") {
+					continue
+				}
+				n++
+				recv := call.Call.Args[0]
+				feeds := false
+				for v := range an.BackSlice(recv, an.SliceOpts{ThroughMemory: true}) {
+					if v == ssa.Value(call) {
+						feeds = true
+					}
+				}
+				r.Check(feeds, short(g)+"|snapshot-advances", call.Pos(), "the snapshot %s returns is the one the next change is compared against (the result flows back into the snapshot variable)", short(sc))
+			}
+		}
+	}
+	r.Count("snapshot updates", n)
+	r.Min("snapshot updates", 2)
+}
